@@ -1,5 +1,5 @@
 import Rare.Proofs.C09Print
-import Rare.Props.C10
+import Rare.Proofs.C10
 /-!
 C09 × C10: a printed expression tree compiles – with the optimiser ON or OFF – to stages that evaluate
 as the tree dictates.
@@ -74,8 +74,7 @@ theorem optimize_ok_of_run (stages : List Stage) (v : Ctx → Bytes)
     ∃ out, optimize stages = .ok out ∧ ∀ ctx, (concatStages out).run ctx = .ok (v ctx) := by
   obtain ⟨out, ho⟩ := optimizeGo_ok stages [] [] (run_concat_each emptyCtx stages _ (h emptyCtx))
   refine ⟨out, ho, fun ctx => ?_⟩
-  have := Rare.C10.optimize_preserves stages out ho
-  simp only [buildKey] at this
+  have := Rare.Expr.optimize_sound stages out ho
   rw [this]; exact h ctx
 
 /-- The end of `Compile` (error list, trailing literal, optimiser) for a scanner state without errors,
